@@ -310,6 +310,7 @@ package tubes
 //@ func (s *sender) sendFin() (err error)
 //@   property C08
 //@   atomic
+//@   modifies s.finSent, s.finFrameNo, s.frameNo, s.frames, s.frames[:], s.unacked, opaque(s)
 //@   ensures err == nil ==> s.finSent && s.finFrameNo == old(s.frameNo) && s.frameNo == old(s.frameNo) + 1 && len(s.frames) == old(len(s.frames)) + 1 &&
 //@        s.frames[len(s.frames)-1].frame.flags.FIN && s.frames[len(s.frames)-1].frame.frameNo == old(s.frameNo)
 //@   ensures err != nil ==> old(s.finSent) && s.frameNo == old(s.frameNo)
@@ -408,6 +409,11 @@ package tubes
 //@   ensures !called(tubes.sender.write) ==> n == 0 && err != nil
 //@   ensures called(tubes.sender.write) ==> n == resultof(tubes.sender.write, n) && err == resultof(tubes.sender.write, err)
 
+// A reliable tube's sender and receive window are allocated by its constructor and never replaced.
+//@ stablefield tubes.Reliable.sender = tubes.Muxer.makeReliableTubeWithID
+//@ stablefield tubes.Reliable.recvWindow = tubes.Muxer.makeReliableTubeWithID
+//@ objinv Reliable : self.sender != nil && self.recvWindow != nil
+
 // ===========================================================================
 // C08 / C16: the reliable tube's reaction to the peer's FIN (Reliable.receive)
 // ===========================================================================
@@ -430,7 +436,6 @@ package tubes
 //@   modifies opaque(r)
 //@ func (r *Reliable) sendFrameByNumberLocked(frameNo uint32)
 //@   property C08 C11
-//@   requires r.sender != nil
 //@   modifies opaque(r)
 //@   loop 1
 //@     invariant 0 <= i && len(r.sender.frames) >= tubes.defaultWindowSize
@@ -449,7 +454,6 @@ package tubes
 //@   property C08 C16
 //@   atomic
 //@   logical F uint64
-//@   requires r.recvWindow != nil && r.sender != nil
 //@   requires qinv(r.recvWindow) && delivered(r.recvWindow)
 //@   requires F % 4294967296 == uint64(pkt.frameNo) && (F >= r.recvWindow.ackNo ? F - r.recvWindow.ackNo : r.recvWindow.ackNo - F) < 2147483648
 //@   requires bytes(pkt.data) == chunk(ref(r.recvWindow), F) && ref(pkt.data) != ref(r.recvWindow.buffer.buf)
@@ -468,3 +472,25 @@ package tubes
 //@   ensures called(tubes.receiver.receive) && !ackFailed() && finFires(pkt) && old(r.tubeState) == tubes.finWait2 ==> r.tubeState == tubes.closed
 // and nothing but an acknowledged FIN or a fired FIN moves an open tube out of the states in which it reads
 //@   ensures !ackFailed() && old(r.tubeState) == tubes.initiated ==> r.tubeState == tubes.initiated || r.tubeState == tubes.closeWait
+
+// ===========================================================================
+// C16: the local half of the FIN state machine (Close)
+// ===========================================================================
+//@ func (r *Reliable) SetReadDeadline(t time.Time) (err error)
+//@   property C16
+//@   modifies opaque(r)
+//@ func (r *Reliable) enterLastAckState()
+//@   property C16
+//@   modifies r.tubeState, r.lastAckTimer
+//@   ensures r.tubeState == tubes.lastAck
+// Close moves an open tube to the state that awaits the peer (initiated -> finWait1, closeWait -> lastAck with the
+// last-ack timer armed), sends exactly one FIN through the sender and reports the sender's verdict; in every other
+// state it changes nothing, sends nothing and reports an error.  (That the blocking select at its head returns is a
+// scheduling matter and not decided here.)
+//@ func (r *Reliable) Close() (err error)
+//@   property C16
+//@   atomic
+//@   ensures old(r.tubeState) == tubes.initiated ==> r.tubeState == tubes.finWait1 && !called(tubes.Reliable.enterLastAckState)
+//@   ensures old(r.tubeState) == tubes.closeWait ==> r.tubeState == tubes.lastAck && called(tubes.Reliable.enterLastAckState)
+//@   ensures old(r.tubeState) == tubes.initiated || old(r.tubeState) == tubes.closeWait ==> callcount(tubes.sender.sendFin) == 1 && err == resultof(tubes.sender.sendFin, err)
+//@   ensures old(r.tubeState) != tubes.initiated && old(r.tubeState) != tubes.closeWait ==> r.tubeState == old(r.tubeState) && err != nil && !called(tubes.sender.sendFin)
